@@ -184,6 +184,25 @@ FAMILIES['uvl-Ctc2']['quick']['cap'] = 3000      # UVL parsing is ~20 ms per doc
 FAMILIES['json-Ctc2']['quick']['cap'] = 6000
 FAMILIES['glencoe-Ctc2']['quick']['cap'] = 6000
 
+FAMILIES.update({
+    'C12-Tree': {
+        'quick':    dict(consts=dict(N=4, MaxKids=3, MinHi=1), invariants=tlc.GEN_INVARIANTS),
+        'thorough': dict(consts=dict(N=5, MaxKids=4, MinHi=1), invariants=tlc.GEN_INVARIANTS),
+    },
+    'C12-Ctc': {
+        'quick':    dict(consts=dict(N=3, MaxKids=2, MinHi=1, Axes={'ctc'}, MaxCtc=1, CtcDepth=1, CtcBinOps=LOGIC_BIN, CtcMinFeatures=3),
+                         invariants=tlc.GEN_INVARIANTS, cap=150),
+        'thorough': dict(consts=dict(N=3, MaxKids=2, MinHi=1, Axes={'ctc'}, MaxCtc=1, CtcDepth=1, CtcBinOps=LOGIC_BIN, CtcMinFeatures=2),
+                         invariants=tlc.GEN_INVARIANTS, cap=1500),
+    },
+    'C12-Attr': {
+        'quick':    dict(consts=dict(N=2, MaxKids=1, MinHi=1, Axes={'attr', 'abs'}, AttrNames=['a1'], AttrVals=ATTR_VALS_JSON[:6]),
+                         invariants=tlc.GEN_INVARIANTS, cap=60),
+        'thorough': dict(consts=dict(N=2, MaxKids=1, MinHi=1, Axes={'attr', 'abs'}, AttrNames=['a1'], AttrVals=ATTR_VALS_JSON),
+                         invariants=tlc.GEN_INVARIANTS, cap=400),
+    },
+})
+
 _cache = {}
 
 
